@@ -756,8 +756,42 @@ def base_function(fid, thr, dims=None):
     return lambda x: (1.0 if x[0] > thr else 0.0) + 0.25 * sum(x)
 
 
+def build_model(ret, g, c, e, k):
+    """the model (f, c f + e, k) resp. the scalar model f as a sparseSpACE Function whose eval returns the given
+    Python type (value caching of Function stays on)"""
+    import numpy as np
+    from sparseSpACE.Function import Function, FunctionCustom, FunctionConcatenate
+    vec = lambda x: [g(x), c * g(x) + e, k]
+    if ret == "list":
+        return FunctionCustom(lambda x: vec(x), output_dim=3)
+    if ret == "tuple":
+        return FunctionCustom(lambda x: tuple(vec(x)), output_dim=3)
+    if ret == "ndarray":
+        return FunctionCustom(lambda x: np.array(vec(x)), output_dim=3)
+    if ret == "class_ndarray":
+        class Model(Function):
+            def eval(self, x):
+                return np.array(vec(x))
+
+            def output_length(self):
+                return 3
+        return Model()
+    if ret == "concat":
+        return FunctionConcatenate([FunctionCustom(lambda x: g(x)), FunctionCustom(lambda x: np.array([c * g(x) + e])),
+                                    FunctionCustom(lambda x: [k])])
+    if ret == "s_float":
+        return FunctionCustom(lambda x: float(g(x)))
+    if ret == "s_npfloat":
+        return FunctionCustom(lambda x: np.float64(g(x)))
+    if ret == "s_list":
+        return FunctionCustom(lambda x: [g(x)])
+    if ret == "s_ndarray":
+        return FunctionCustom(lambda x: np.array([g(x)]))
+    raise ValueError(ret)
+
+
 def run_moments_case(ctx, drv, case):
-    """case = {kind:'moments', dims, boundary, form, fid, thr, c, e, k, max_evaluations, lmax}"""
+    """case = {kind:'moments', dims, boundary, form, fid, thr, c, e, k, max_evaluations, lmax, ret, setup}"""
     import numpy as np
     from sparseSpACE.Grid import GlobalTrapezoidalGridWeighted
     from sparseSpACE.Function import FunctionCustom
@@ -768,6 +802,8 @@ def run_moments_case(ctx, drv, case):
     c, e, k = case["c"], case["e"], case["k"]
     g = base_function(case["fid"], case["thr"], dims)
     ok = True
+    if case.get("ret", "list").startswith("s_"):
+        k = 0.0
     anyshared = any(shared_other_domain(dims, d) for d in range(ndim))
     fams = sorted({family_tag(dm) for dm in dims})
     sups = sorted({support_tag(dm) for dm in dims})
@@ -784,11 +820,16 @@ def run_moments_case(ctx, drv, case):
         if ctx.violation(probe, tags, case, detail):
             ok = False
 
+    ret = case.get("ret", "list")
+    ncomp = 1 if ret.startswith("s_") else 3
+
     def fvecfun(x):
         v = g(x)
-        return [v, c * v + e, k]
+        return [v, c * v + e, k][:ncomp]
 
-    f = FunctionCustom(fvecfun, output_dim=3)
+    f = build_model(ret, g, c, e, k)
+    ctx.count("moments_model_return_" + ret)
+    ctx.count("moments_setup_" + case.get("setup", "evf"))
     op, a, b = make_op(dims, f, case.get("form", "list"))
     # sharing as the implementation really does it (none once _prepare_distributions keys by domain)
     impl_reuse = [min(j for j in range(d + 1) if op.distributions[j] is op.distributions[d]) for d in range(ndim)]
@@ -796,7 +837,13 @@ def run_moments_case(ctx, drv, case):
     tags["shared_other_domain"] = anyshared
     grid = GlobalTrapezoidalGridWeighted(a, b, op, boundary=boundary)
     op.set_grid(grid)
-    op.set_expectation_variance_Function()
+    setup = case.get("setup", "evf")
+    if setup == "moments12":
+        op.set_moments_Function([1, 2])
+    elif setup == "update":
+        op.update_function(op.get_expectation_variance_Function())
+    else:
+        op.set_expectation_variance_Function()
     try:
         with quiet():
             ci = SpatiallyAdaptiveSingleDimensions2(a, b, operation=op, norm=2, use_volume_weighting=True,
@@ -819,7 +866,7 @@ def run_moments_case(ctx, drv, case):
              {"clause": "weights sum to 1", "E": E, "V": V, "nonfinite_weights": sum(1 for x in W if not math.isfinite(x))})
         return ok
     vals = [fvecfun(tuple(float(t) for t in p)) for p in pts]
-    cols = [[float(v[j]) for v in vals] for j in range(3)]
+    cols = [[float(v[j]) for v in vals] for j in range(ncomp)]
     ctx.count("moments_nodes", len(W))
     if min(W) < 0:
         ctx.count("moments_rule_has_negative_weights")
@@ -846,7 +893,7 @@ def run_moments_case(ctx, drv, case):
         Em, Vm = [float(x) for x in parse_vec(es)], [float(x) for x in parse_vec(vs)]
         for nm, Ei, Vi in (("solution", E, V), ("nodes", En, Vn)):
             if any(not near(x, y, 1e-9, s) for x, y, s in zip(Ei, Em, sc1)) or \
-                    any(not near(x, y, 1e-9, s) for x, y, s in zip(Vi, Vm, sc2)) or len(Ei) != 3 or len(Vi) != 3:
+                    any(not near(x, y, 1e-9, s) for x, y, s in zip(Vi, Vm, sc2)) or len(Ei) != ncomp or len(Vi) != ncomp:
                 corr("expectation-variance-" + nm, {"E": Ei, "V": Vi}, rm[:300])
     except Exception:  # noqa: BLE001
         corr("expectation-variance", {"E": E, "V": V}, rm[:300])
@@ -871,6 +918,13 @@ def run_moments_case(ctx, drv, case):
             corr("combined-weights", wi[:20], wm[:20])
     # ---- oracle: the property clauses on the implementation's outputs
     law_bad = []
+    if any(v < 0 for v in V) or len(E) != ncomp or len(V) != ncomp:
+        viol("var-negative", {"V": V, "E": E})
+    if ncomp == 1:
+        # scalar model: no transformed component; E and Var are tied to the independent Σ W f, Σ W f² above
+        if abs(S - 1.0) > 1e-9 and not (boundary and "finite-box" in sups):
+            viol("weights-sum", {"E": E, "V": V, "sum_of_combined_weights": S})
+        return ok
     if not near(E[1], c * E[0] + e, 1e-9, abs(c) * sc1[0] + abs(e) * absW):
         law_bad.append("E[c f + e] = c E[f] + e")
     if not near(V[1], c * c * V[0], 1e-9, c * c * sc2[0] + sc2[1]):
@@ -879,8 +933,6 @@ def run_moments_case(ctx, drv, case):
         law_bad.append("E[const] = const")
     if abs(V[2]) > 1e-12 * max(1.0, k * k * absW * absW):
         law_bad.append("Var[const] = 0")
-    if any(v < 0 for v in V):
-        viol("var-negative", {"V": V})
     detail = {"E": E, "V": V, "c": c, "e": e, "k": k, "sum_of_combined_weights": S, "failed": law_bad}
     if law_bad or abs(S - 1.0) > 1e-9:
         # affine_moments_mass: are the deviations exactly those of a rule of total mass S ?
@@ -921,7 +973,10 @@ def gen_moments_case(ctx):
             "c": r.choice([-3.0, -1.5, -0.25, 0.5, 2.0, 3.0, 16.0]), "e": r.choice([-8.0, -1.5, 0.0, 0.75, 5.0]),
             "k": r.choice([-2.5, 0.0, 1.0, 2.5, 7.0, 1.0e6, -1.0e6, 3.0e5]),
             "max_evaluations": r.choice([10, 20, 40] if ndim <= 2 else [20, 40]) if not thorough else r.choice([10, 30, 60, 100]),
-            "lmax": r.choice([2, 2, 3])}
+            "lmax": r.choice([2, 2, 3]),
+            "ret": r.choice(["list", "list", "tuple", "ndarray", "ndarray", "class_ndarray", "concat",
+                             "s_float", "s_npfloat", "s_list", "s_ndarray"]),
+            "setup": r.choice(["evf", "evf", "moments12", "update"])}
 
 
 # ----------------------------------------------------------------------------------------- entry points
@@ -946,7 +1001,9 @@ def run(ctx):
                 "towards an end), distinct by (dims, boundary, form, split lists); (synthmid) get_middle_weighted with "
                 "synthetic cdf/ppf over finite/infinite end points; (synthw) compute_weights with arbitrary dyadic interval moments "
                 "(inside / slightly outside / clearly outside the bracket, zero masses, infinite ends); (moments) a short dimension-wise run "
-                "(SpatiallyAdaptiveSingleDimensions2 + UncertaintyQuantification) on the vector model (f, c f + e, k); "
+                "(SpatiallyAdaptiveSingleDimensions2 + UncertaintyQuantification) on the vector model (f, c f + e, k) resp. a scalar model, whose eval returns "
+                "list / tuple / ndarray / Function subclass / FunctionConcatenate / float / np.float64, moments set up by "
+                "set_expectation_variance_Function / set_moments_Function([1,2]) / update_function; "
                 "a case is non-trivial if it has at least 3 points in some dimension resp. a < b resp. any node")
     ctx.assumptions.append("w_nonneg needs x1*m0 <= m1 <= x2*m0 per interval; m1 comes from scipy.integrate.quad(epsrel=1e-2, "
                            "epsabs=inf): the hypothesis is evaluated per case on the implementation's own moments and its "
